@@ -33,7 +33,11 @@ def corpus(build):
     # a clone / split child taken while 1..7 buffered bytes are left must continue with exactly those bytes
     tails = ["chacha n=%d key=1,2,3,4,5,6,7,8 ctr=%d str=2 ops=fill:%d,%s,u32" % (N, 5 + off, off, child)
              for N in (8, 20) for off in (248, 249, 250, 251, 252, 253, 254, 255, 256) for child in ("clone32", "clonef:5", "split32", "splitf:3", "clonef:300")]
-    return tails + ["chacha n=8 key=%s ctr=0 str=0 ops=u32,fill:250,u64,jump,fill:300,u32,split,u64,clone" % z,
+    # a bulk fill (whole batches bypass the buffer) issued while 0..6 buffered bytes are left: the left-over bytes must come out exactly once
+    bulk = ["chacha n=%d key=8,7,6,5,4,3,2,1 ctr=%d str=5 ops=fill:%d,fill:%d,u32,fill:2" % (N, 9 + off, off, L)
+            for N in (8, 20) for off in (250, 251, 252, 253, 254, 255, 256) for L in (256, 259, 300, 513)]
+    bulk += ["chacha n=12 key=8,7,6,5,4,3,2,1 ctr=77 str=5 ops=%s,fill:%d,fill:%d,fill:1" % (",".join(["u32"] * 63), k, L) for k in (1, 2, 3) for L in (256, 300)]
+    return tails + bulk + ["chacha n=8 key=%s ctr=0 str=0 ops=u32,fill:250,u64,jump,fill:300,u32,split,u64,clone" % z,
             "chacha n=12 key=%s ctr=7 str=18446744073709551615 ops=jump,u64,jump,fill:1" % z,
             "chacha n=20 key=%s ctr=0 str=0 ops=fill:252,u64,fill:255,u32,fill:256,fill:257,fill:0,u32" % z]
 
